@@ -70,7 +70,10 @@ class HTTPConnection(Mapping[str, Any], MoreInfoFromHeaderMixin):
         """
         The full URL of this request.
         """
-        return URL(environ=self._environ)
+        try:
+            return URL(environ=self._environ)
+        except ValueError:  # e.g. Host: [  -> "Invalid IPv6 URL"
+            raise HTTPException(400, content="Malformed request URL") from None
 
     @cached_property
     def path_params(self) -> Dict[str, Any]:
